@@ -13,13 +13,23 @@
 (* SpawnFirst = TRUE is the current order in _ensure_executor_running      *)
 (* (workers are spawned before the manager thread takes its first sentinel *)
 (* snapshot); FALSE is the reordering that loses a death (sensitivity).    *)
+(* Environment of the process: ExitKnown = FALSE when the exit status of a  *)
+(* dead worker can never be collected (SIGCHLD ignored, another component   *)
+(* reaps every child): the manager thread waits for it with bounded         *)
+(* patience (Patience = TRUE, current) before it flags the executor.        *)
+(* Parents = workers that have child processes of their own when the pool   *)
+(* is torn down: kill_process_tree kills the descendants and then the       *)
+(* worker itself (KillsSelf = TRUE, current); the manager thread joins the  *)
+(* workers before it exits, and the failing call joins the manager thread   *)
+(* (executor.shutdown(wait = TRUE) in Parallel._abort).                     *)
 (***************************************************************************)
 EXTENDS Integers, Sequences, FiniteSets, TLC
 
 CONSTANTS W,          \* worker slots, e.g. {1, 2}
           NT,         \* tasks per call
           Calls, Kills, SpawnFirst,
-          FlagFirst   \* TRUE (current): terminate_broken flags the executor as broken BEFORE failing the pending work items
+          FlagFirst,  \* TRUE (current): terminate_broken flags the executor as broken BEFORE failing the pending work items
+          ExitKnown, Patience, Parents, KillsSelf
 
 Tasks == 1..NT
 VARIABLES ws,        \* [W -> "absent" | "idle" | "running" | "sending" | "dead"]
@@ -28,7 +38,7 @@ VARIABLES ws,        \* [W -> "absent" | "idle" | "running" | "sending" | "dead"
           queue,     \* call queue (sequence of tasks)
           resq,      \* results sitting in the result pipe
           fut,       \* [Tasks -> "none" | "pending" | "done" | "error"]
-          mgr,       \* "absent" | "waiting" | "awake" | "breaking" (inside terminate_broken) | "gone" (thread exited)
+          mgr,       \* "absent" | "waiting" | "awake" | "collecting" (exit codes) | "breaking" (inside terminate_broken) | "killing" (kill_workers, join) | "gone" (thread exited)
           snap,      \* workers whose sentinels the sleeping manager thread watches
           wake,      \* wake-up pipe has data
           broken, pc, call, kills, failed, faultInCall, submitted
@@ -81,10 +91,16 @@ Submit ==
 Retrieve ==
   /\ pc = "retrieve"
   /\ \/ /\ \E t \in Tasks : fut[t] = "error"
-        /\ pc' = "idle" /\ failed' = failed + 1
+        /\ pc' = "abort" /\ failed' = failed + 1
      \/ /\ \A t \in Tasks : fut[t] = "done"
         /\ pc' = "idle" /\ UNCHANGED failed
   /\ UNCHANGED <<ws, wt, lock, queue, resq, fut, mgr, snap, wake, broken, call, kills, faultInCall, submitted>>
+
+\* Parallel._abort -> backend.abort_everything -> executor.shutdown(kill_workers = TRUE): joins the manager thread
+Abort ==
+  /\ pc = "abort" /\ mgr \in {"gone", "absent"}
+  /\ pc' = "idle"
+  /\ UNCHANGED <<ws, wt, lock, queue, resq, fut, mgr, snap, wake, broken, call, kills, failed, faultInCall, submitted>>
 
 \* ---- workers
 Take(i) ==
@@ -118,28 +134,37 @@ FailPending == fut' = [t \in Tasks |-> IF fut[t] = "pending" THEN "error" ELSE f
 MgrStep ==
   /\ mgr = "awake"
   /\ IF \E i \in snap : ws[i] = "dead"
-     THEN /\ mgr' = "breaking"
-          /\ IF FlagFirst THEN broken' = TRUE /\ UNCHANGED fut ELSE FailPending /\ UNCHANGED broken
-          /\ UNCHANGED <<ws, wt, lock, queue, resq, snap>>
+     THEN /\ mgr' = "collecting"        \* wait_result_broken_or_wakeup: get_exitcodes_terminated_worker comes first
+          /\ UNCHANGED <<ws, wt, lock, queue, resq, snap, fut, broken>>
      ELSE /\ fut' = [t \in Tasks |-> IF t \in resq /\ fut[t] = "pending" THEN "done" ELSE fut[t]]
           /\ resq' = {} /\ UNCHANGED <<ws, wt, lock, queue, broken>>
           /\ mgr' = "waiting" /\ snap' = {i \in W : ws[i] # "absent"}
   /\ UNCHANGED <<wake, pc, call, kills, failed, faultInCall, submitted>>
+MgrCollect ==      \* the exit code is there, or patience runs out (0.25 s); without patience the thread polls for ever
+  /\ mgr = "collecting" /\ (ExitKnown \/ Patience)
+  /\ mgr' = "breaking"
+  /\ IF FlagFirst THEN broken' = TRUE /\ UNCHANGED fut ELSE FailPending /\ UNCHANGED broken
+  /\ UNCHANGED <<ws, wt, lock, queue, resq, snap, wake, pc, call, kills, failed, faultInCall, submitted>>
 MgrBreak ==
   /\ mgr = "breaking"
   /\ IF FlagFirst THEN FailPending /\ UNCHANGED broken ELSE broken' = TRUE /\ UNCHANGED fut
-  /\ ws' = [i \in W |-> IF ws[i] = "absent" THEN "absent" ELSE "dead"]
-  /\ queue' = <<>> /\ resq' = {} /\ mgr' = "gone" /\ snap' = {}
-  /\ UNCHANGED <<wt, lock, wake, pc, call, kills, failed, faultInCall, submitted>>
+  \* kill_workers: kill_process_tree for every worker
+  /\ ws' = [i \in W |-> IF ws[i] = "absent" THEN "absent" ELSE IF i \in Parents /\ ~KillsSelf THEN ws[i] ELSE "dead"]
+  /\ queue' = <<>> /\ resq' = {} /\ mgr' = "killing"
+  /\ UNCHANGED <<wt, lock, snap, wake, pc, call, kills, failed, faultInCall, submitted>>
+MgrJoin ==         \* process.join() for every worker, then the thread exits
+  /\ mgr = "killing" /\ \A i \in W : ws[i] \in {"absent", "dead"}
+  /\ mgr' = "gone" /\ snap' = {}
+  /\ UNCHANGED <<ws, wt, lock, queue, resq, fut, wake, broken, pc, call, kills, failed, faultInCall, submitted>>
 
-Next == \/ CallBegin \/ Ensure1 \/ Ensure2 \/ Submit \/ Retrieve \/ MgrWake \/ MgrStep \/ MgrBreak
+Next == \/ CallBegin \/ Ensure1 \/ Ensure2 \/ Submit \/ Retrieve \/ Abort \/ MgrWake \/ MgrStep \/ MgrCollect \/ MgrBreak \/ MgrJoin
         \/ \E i \in W : Take(i) \/ Finish(i) \/ Send(i) \/ Kill(i)
-Fairness == /\ WF_vars(CallBegin \/ Ensure1 \/ Ensure2 \/ Submit \/ Retrieve) /\ WF_vars(MgrWake) /\ WF_vars(MgrStep) /\ WF_vars(MgrBreak)
+Fairness == /\ WF_vars(CallBegin \/ Ensure1 \/ Ensure2 \/ Submit \/ Retrieve \/ Abort) /\ WF_vars(MgrWake) /\ WF_vars(MgrStep) /\ WF_vars(MgrCollect) /\ WF_vars(MgrBreak) /\ WF_vars(MgrJoin)
             /\ \A i \in W : WF_vars(Take(i)) /\ WF_vars(Finish(i)) /\ WF_vars(Send(i))
 Spec == Init /\ [][Next]_vars /\ Fairness
 
 NoHang == <>[](pc = "idle" /\ call = Calls)
-NoPartialResults == [][(pc = "retrieve" /\ pc' = "idle" /\ failed' = failed) => \A t \in Tasks : fut[t] = "done"]_vars
+NoPartialResults == [][(pc = "retrieve" /\ pc' = "idle") => \A t \in Tasks : fut[t] = "done"]_vars
 FailsOnlyOnFault == [][(failed' = failed + 1) => (faultInCall \/ \E i \in W : ws[i] = "dead")]_vars
 AtMostOneFailurePerKill == failed <= kills
 =============================================================================
